@@ -12,7 +12,8 @@ pub enum Atom { Atomic, Compound, NonAtomic }
 
 pub struct Spec { pub rules: HashMap<String, OptimizedRule> }
 
-pub struct Ctx<'a> { pub input: &'a str, pub steps: usize, pub limit: usize, pub toks: Vec<(String, usize, usize, usize)>, /* (rule,start,end,index of first child token) */ }
+pub struct Ctx<'a> { pub input: &'a str, pub steps: usize, pub limit: usize, pub toks: Vec<(String, usize, usize, usize)>, /* (rule,start,end,index just past the last descendant) */
+    pub refs: Vec<(String, usize, usize)>, pub depth: usize, pub neg: usize }
 
 type Stack = Vec<(usize, usize)>;
 pub enum Out { Diverge }
@@ -25,15 +26,28 @@ impl Spec {
 
     /// returns Ok(Some((end, tree))) / Ok(None) on failure / Err(Diverge) when the step limit is hit
     pub fn run(&self, rule: &str, input: &str, limit: usize) -> Result<Option<(usize, Vec<(String, usize, usize, usize)>)>, Out> {
-        let mut cx = Ctx { input, steps: 0, limit, toks: vec![] };
+        let mut cx = Ctx { input, steps: 0, limit, toks: vec![], refs: vec![], depth: 0, neg: 0 };
         let r = self.call(rule, 0, Vec::new(), Atom::NonAtomic, false, &mut cx)?;
         Ok(r.map(|(p, _)| (p, cx.toks)))
     }
 
     /// does `rule` match at byte offset `pos` under the given atomicity (empty stack, no lookahead)?
     pub fn match_at(&self, rule: &str, input: &str, pos: usize, at: Atom, limit: usize) -> Result<bool, Out> {
-        let mut cx = Ctx { input, steps: 0, limit, toks: vec![] };
+        let mut cx = Ctx { input, steps: 0, limit, toks: vec![], refs: vec![], depth: 0, neg: 0 };
         Ok(self.call(rule, pos, Vec::new(), at, false, &mut cx)?.is_some())
+    }
+
+    /// rule references evaluated DIRECTLY by `rule`'s own expression on the successful path (also under a
+    /// positive predicate, never under a negative one), in evaluation order: what C16's getters must return.
+    pub fn direct_refs(&self, rule: &str, input: &str, limit: usize) -> Result<Option<Vec<(String, usize, usize)>>, Out> {
+        let mut cx = Ctx { input, steps: 0, limit, toks: vec![], refs: vec![], depth: 0, neg: 0 };
+        let r = self.call(rule, 0, Vec::new(), Atom::NonAtomic, false, &mut cx)?;
+        Ok(r.map(|_| cx.refs))
+    }
+    /// end of the implicit skip started at `pos` in a non-atomic context
+    pub fn skip_end(&self, input: &str, pos: usize, limit: usize) -> Result<usize, Out> {
+        let mut cx = Ctx { input, steps: 0, limit, toks: vec![], refs: vec![], depth: 0, neg: 0 };
+        Ok(self.skip(pos, Vec::new(), Atom::NonAtomic, false, &mut cx)?.0)
     }
 
     fn tick(&self, cx: &mut Ctx) -> Result<(), Out> { cx.steps += 1; if cx.steps > cx.limit { Err(Out::Diverge) } else { Ok(()) } }
@@ -52,10 +66,18 @@ impl Spec {
             let emits = rule.ty != RuleType::Silent && !look && tok_at != Atom::Atomic;
             let mark = cx.toks.len();
             if emits { cx.toks.push((name.to_string(), pos, 0, 0)); }
-            let r = self.eval(&rule.expr, pos, st, body_at, look, cx)?;
+            let rmark = cx.refs.len();
+            cx.depth += 1;
+            let r = self.eval(&rule.expr, pos, st, body_at, look, cx);
+            cx.depth -= 1;
+            let r = r?;
             match r {
-                Some((e, s)) => { if emits { cx.toks[mark].2 = e; cx.toks[mark].3 = cx.toks.len(); } Ok(Some((e, s))) }
-                None => { cx.toks.truncate(mark); Ok(None) }
+                Some((e, s)) => {
+                    if emits { cx.toks[mark].2 = e; cx.toks[mark].3 = cx.toks.len(); }
+                    if cx.depth == 1 && cx.neg == 0 { cx.refs.push((name.to_string(), pos, e)); }
+                    Ok(Some((e, s)))
+                }
+                None => { cx.toks.truncate(mark); cx.refs.truncate(rmark); Ok(None) }
             }
         } else {
             self.builtin(name, pos, st, look, at, cx)
@@ -99,6 +121,7 @@ impl Spec {
         if at != Atom::NonAtomic { return Ok((pos, st)); }
         let has_w = self.rules.contains_key("WHITESPACE"); let has_c = self.rules.contains_key("COMMENT");
         let (mut p, mut s) = (pos, st);
+        cx.neg += 1;   // implicit skips are not "mentions": keep them out of `refs`
         // WHITESPACE* ~ (COMMENT ~ WHITESPACE*)*   (degenerate forms when only one is defined)
         loop {
             if has_w { loop { self.tick(cx)?; match self.call("WHITESPACE", p, s.clone(), at, look, cx)? { Some((q, s2)) => { p = q; s = s2; } None => break } } }
@@ -106,12 +129,14 @@ impl Spec {
             self.tick(cx)?;
             match self.call("COMMENT", p, s.clone(), at, look, cx)? { Some((q, s2)) => { p = q; s = s2; } None => break }
         }
+        cx.neg -= 1;
         Ok((p, s))
     }
 
     fn eval(&self, e: &E, pos: usize, st: Stack, at: Atom, look: bool, cx: &mut Ctx) -> Result<Option<(usize, Stack)>, Out> {
         self.tick(cx)?;
         let mark = cx.toks.len();
+        let rmark = cx.refs.len();
         let r = match e {
             E::Str(s) => self.mstr(cx, pos, s).map(|p| (p, st)),
             E::Insens(s) => { let r = &cx.input[pos..]; match r.get(..s.len()) { Some(pre) if pre.eq_ignore_ascii_case(s) => Some((pos + s.len(), st)), _ => None } }
@@ -132,7 +157,7 @@ impl Spec {
                 }
             }
             E::PosPred(x) => match self.eval(x, pos, st.clone(), at, true, cx)? { Some(_) => Some((pos, st)), None => None },
-            E::NegPred(x) => match self.eval(x, pos, st.clone(), at, true, cx)? { Some(_) => None, None => Some((pos, st)) },
+            E::NegPred(x) => { cx.neg += 1; let r = self.eval(x, pos, st.clone(), at, true, cx); cx.neg -= 1; cx.refs.truncate(rmark); match r? { Some(_) => None, None => Some((pos, st)) } }
             E::Seq(l, r) => {
                 match self.eval(l, pos, st, at, look, cx)? {
                     None => None,
@@ -156,9 +181,9 @@ impl Spec {
                 let (mut p, mut s) = (pos, st); let mut i = 0usize;
                 loop {
                     self.tick(cx)?;
-                    let m = cx.toks.len();
+                    let m = cx.toks.len(); let rm = cx.refs.len();
                     let (p2, s2) = if i == 0 { (p, s.clone()) } else { self.skip(p, s.clone(), at, look, cx)? };
-                    match self.eval(x, p2, s2, at, look, cx)? { Some((p3, s3)) => { p = p3; s = s3; i += 1; } None => { cx.toks.truncate(m); break; } }
+                    match self.eval(x, p2, s2, at, look, cx)? { Some((p3, s3)) => { p = p3; s = s3; i += 1; } None => { cx.toks.truncate(m); cx.refs.truncate(rm); break; } }
                 }
                 Some((p, s))
             }
@@ -172,7 +197,7 @@ impl Spec {
             #[allow(unreachable_patterns)]
             _ => panic!("grammar-extras constructor"),
         };
-        if r.is_none() { cx.toks.truncate(mark); }
+        if r.is_none() { cx.toks.truncate(mark); cx.refs.truncate(rmark); }
         Ok(r)
     }
 }
